@@ -1,3 +1,210 @@
-"""C12, second half: Vfs / passthrough / overlay switch behaviours on only when negotiated (filled in below)."""
+"""C12, second half: Vfs / passthrough / overlay switch behaviours on only when negotiated.
+
+For every combination of the configuration switches of each layer and a set of capability words,
+harness/src/bin/inittoggle.rs builds the real object, runs  init(cap1); probes; init(cap1);
+destroy; init(cap2); probes  and reports what it saw.  Here (1) the property predicate is
+evaluated on those observations, (2) the observations are compared with coq/Model/InitToggles.v
+(the model the theorems of Props/C12.v are about) by evaluation inside Coq."""
+import os, re, collections
+from vlib import *
+
+ZMO, ZMOD, WBC, KPV2, DAX, AOT = 1 << 17, 1 << 24, 1 << 16, 1 << 28, 1 << 33, 1 << 3
+BASE = (1 << 13) | (1 << 14)             # DO_READDIRPLUS | READDIRPLUS_AUTO, returned by the layers unconditionally
+ALL = (1 << 64) - 1
+BITS = {'O': ZMO, 'D': ZMOD, 'WB': WBC, 'KP': KPV2, 'DAX': DAX}
+NAMES = {'O': 'no-open (OPEN answered ENOSYS)', 'D': 'no-opendir (OPENDIR answered ENOSYS)', 'WB': 'writeback open-flag rewriting',
+         'KP': 'kill-priv (CAP_FSETID dropped on open(O_TRUNC))', 'DAX': 'per-file DAX attribute'}
+
+def default_out_opts():
+    """VfsOptions::default().out_opts re-read from the source (linux variant)"""
+    src = open(os.path.join(REPO, 'src/api/vfs/mod.rs')).read()
+    m = re.search(r'#\[cfg\(target_os = "linux"\)\]\s*fn default\(\) -> Self \{\s*let out_opts = (.*?);', src, re.S)
+    if not m: return None
+    names = re.findall(r'FsOptions::([A-Z0-9_]+)', m.group(1))
+    abi = open(os.path.join(REPO, 'src/abi/fuse_abi_linux.rs')).read()
+    v = 0
+    for n in names:
+        mm = re.search(r'const %s = ([A-Z0-9_]+);' % n, abi)
+        if not mm: return None
+        m2 = re.search(r'const %s: u64 = (0x[0-9a-fA-F_]+|\d+);' % mm.group(1), abi)
+        if not m2: return None
+        v |= int(m2.group(1).replace('_', ''), 0)
+    return v
+
+def cap_pool(rng, tier):
+    pool = [0, ALL, ZMO, ZMOD, WBC, KPV2, DAX, ZMO | ZMOD | WBC | KPV2 | DAX, ALL & ~ZMO, ALL & ~WBC]
+    for _ in range(2 if tier == 'quick' else 12):
+        pool.append(rng.getrandbits(64))
+    for _ in range(1 if tier == 'quick' else 6):      # random subsets of the five relevant bits (plus noise in the low word)
+        w = rng.getrandbits(32) & ~(ZMO | ZMOD | WBC | KPV2)
+        for b in (ZMO, ZMOD, WBC, KPV2, DAX):
+            if rng.random() < 0.5: w |= b
+        pool.append(w)
+    return pool
+
+def gen_cases(rng, tier, dflt):
+    import server_common
+    known = server_common.fsopt_mask()        # VfsOptions.out_opts is an FsOptions: only known bits can be configured
+    pool = cap_pool(rng, tier)
+    cases = []
+    def add(layer, sw, oo, c1, c2):
+        cases.append({'id': len(cases), 'layer': layer, 'sw': sw, 'out_opts': oo, 'cap1': c1, 'cap2': c2})
+    for sw in range(16):                                   # vfs: no_open no_opendir no_writeback killpriv_v2
+        for c1 in pool:
+            add('vfs', sw, None, c1, rng.choice(pool))
+        # configured out_opts other than the default: random, and the default without the zero-message bits
+        for oo in (rng.getrandbits(64) & known, dflt & ~(ZMO | ZMOD), dflt | KPV2 | AOT):
+            add('vfs', sw, oo, rng.choice(pool), rng.choice(pool))
+    for pol in range(4):                                   # passthrough: do_import writeback no_open no_opendir killpriv_v2 x cache policy
+        for sw5 in range(32):
+            sw = sw5 | (pol << 5)
+            caps = pool if (pol == 1 or tier != 'quick') else [0, ALL, rng.choice(pool)]
+            for c1 in caps:
+                add('pt', sw, None, c1, rng.choice(pool))
+    for sw in range(64):                                   # overlay: ... + perfile_dax
+        caps = pool if tier != 'quick' else [0, ALL, ZMO, WBC, DAX, rng.choice(pool), rng.choice(pool)]
+        for c1 in caps:
+            add('ovl', sw, None, c1, rng.choice(pool))
+    return cases
+
+RX = re.compile(r'^(\d+) I=(\S+) O=(\S+) D=(\S+) WB=(\S+) KP=(\S+) DAX=(\S+) R=(\S+) \| I=(\S+) O=(\S+) D=(\S+) WB=(\S+) KP=(\S+) DAX=(\S+)$')
+
+def parse(line):
+    m = RX.match(line.strip())
+    if not m: return None
+    g = m.groups()
+    r1 = dict(zip(('I', 'O', 'D', 'WB', 'KP', 'DAX'), g[1:7]))
+    r2 = dict(zip(('I', 'O', 'D', 'WB', 'KP', 'DAX'), g[8:14]))
+    return int(g[0]), r1, g[7], r2
+
+def on(r, k):
+    return r[k] == 'enosys' if k in ('O', 'D') else r[k] == '1'
+
+def coq_ires(s):
+    k, v = s.split(':')
+    return '(IOk %s)' % v if k == 'ok' else '(IErr %s)' % v
+def coq_round(r):
+    def pr(s): return {'enosys': 'PEnosys', 'h': 'PHandle'}.get(s)
+    def tri(s): return {'1': '(Some true)', '0': '(Some false)', 'na': 'None'}.get(s)
+    def b(s): return {'1': 'true', '0': 'false'}.get(s)
+    parts = [coq_ires(r['I']), pr(r['O']), pr(r['D']), tri(r['WB']), tri(r['KP']), b(r['DAX'])]
+    if any(p is None for p in parts) or int(r['I'].split(':')[1]) < 0: return None
+    return '(mkR %s)' % ' '.join(parts)
+
+def coq_case(c, r1, rr, r2):
+    a, b = coq_round(r1), coq_round(r2)
+    if a is None or b is None or int(rr.split(':')[1]) < 0: return None
+    obs = '(%s, %s, %s)' % (a, coq_ires(rr), b)
+    if c['layer'] == 'pt':
+        m = '(pt_case (policy_of_bits %d) (lcfg_of_bits %d) %d %d)' % (c['sw'], c['sw'], c['cap1'], c['cap2'])
+    elif c['layer'] == 'ovl':
+        m = '(ovl_case (lcfg_of_bits %d) %d %d)' % (c['sw'], c['cap1'], c['cap2'])
+    else:
+        oo = 'None' if c['out_opts'] is None else '(Some %d)' % c['out_opts']
+        m = '(vfs_case (vstate_of_bits %d %s) %d %d)' % (c['sw'], oo, c['cap1'], c['cap2'])
+    return '(case_eqb %s %s)' % (m, obs)
+
+def check_property(c, r1, rr, r2, dflt):
+    """the property itself, on the observations of one case -> list of findings"""
+    out = []
+    layer = c['layer']
+    def bad(what, sig):
+        s = {'part': 'toggle', 'layer': layer}; s.update(sig)
+        out.append({'what': '%s sw=%d out_opts=%s cap1=0x%x cap2=0x%x: %s' % (layer, c['sw'], c['out_opts'], c['cap1'], c['cap2'], what),
+                    'sig': s, 'input': dict(c, observed={'round1': r1, 'reinit': rr, 'round2': r2})})
+    for k, (r, cap) in enumerate(((r1, c['cap1']), (r2, c['cap2'])), 1):
+        for p, bit in BITS.items():
+            if on(r, p) and not cap & bit:
+                if layer == 'ovl' and p == 'WB' and c['sw'] & 2:
+                    sig = {'defect': 'ovl-writeback-config'}
+                elif k == 2 and c['cap1'] & bit:
+                    # switched on by the first INIT and still on after DESTROY + an INIT that did not negotiate it;
+                    # under a Vfs the sticky switch is the backend's (the Vfs's own switches are recomputed)
+                    sig = {'defect': 'sticky-reinit', 'layer': 'pt' if layer == 'vfs' else layer}
+                else:
+                    sig = {'probe': p, 'round': k}
+                bad('%s is on after INIT #%d although the capability word lacks the feature bit 0x%x' % (NAMES[p], k, bit), sig)
+        if r['I'].startswith('ok:'):
+            bits = int(r['I'][3:])
+            extra = (bits & ~cap) if layer == 'vfs' else (bits & ~BASE & ~cap)
+            if extra:
+                bad('INIT #%d returned option bits 0x%x that the capability word 0x%x does not have' % (k, extra, cap), {'probe': 'opts', 'round': k})
+            if layer == 'vfs' and c['out_opts'] is None:
+                for p, bit in (('O', ZMO), ('D', ZMOD)):
+                    # with the default out_opts the Vfs's own switch is on exactly when the bit is in the reply; in round 2 a
+                    # sticky backend switch may add ENOSYS answers (classified above), so only round 1 is an equivalence
+                    if k == 1 and on(r, p) != bool(bits & bit):
+                        bad('%s is %s but INIT #%d %s 0x%x' % (NAMES[p], 'on' if on(r, p) else 'off', k,
+                                                                'did not enable' if on(r, p) else 'enabled', bit), {'probe': p + '-iff', 'round': k})
+        elif layer != 'vfs':
+            bad('INIT #%d failed: %s' % (k, r['I']), {'probe': 'init', 'round': k})
+    if layer == 'vfs':
+        if rr != 'err:22':
+            bad('a second INIT without DESTROY was answered %s instead of EINVAL' % rr, {'probe': 'reinit'})
+    if layer == 'pt' and not c['sw'] & 1:
+        # under a VFS (do_import = false): exactly the capability word
+        for p, bit in BITS.items():
+            if r1[p] == 'na': continue
+            if on(r1, p) != bool(c['cap1'] & bit):
+                bad('passthrough with do_import=false: %s is %s but the negotiated word %s 0x%x' % (
+                    NAMES[p], 'on' if on(r1, p) else 'off', 'lacks' if on(r1, p) else 'has', bit), {'probe': p + '-exact', 'round': 1})
+    return out
+
+HEADER = ('From Coq Require Import List NArith Bool.\nFrom FB Require Import Model.InitToggles.\nImport ListNotations.\n'
+          'Local Open Scope N_scope.\n')
+
 def run(rng, tier, bindir, findings, broken):
-    return 0, 0, []
+    dflt = default_out_opts()
+    if dflt is None:
+        broken.append({'kind': 'translator', 'item': 'VfsOptions::default out_opts', 'error': 'expression not found'}); dflt = 0
+    # the model's default must be the source's
+    vals, errs = coq_eval_values('c12tog_dflt', HEADER, ['vfs_default_out'])
+    m = re.match(r'= (\d+)', vals[0] or '') if vals else None
+    if not m or int(m.group(1)) != dflt:
+        broken.append({'kind': 'correspondence', 'name': 'Model/InitToggles.v vfs_default_out vs VfsOptions::default()', 'case': {'source': dflt, 'model': vals}})
+    cases = gen_cases(rng, tier, dflt)
+    d = os.path.join(SCRATCH, 'c12'); os.makedirs(d, exist_ok=True)
+    cf = os.path.join(d, 'toggle.cases')
+    with open(cf, 'w') as f:
+        for c in cases:
+            f.write('%d %s %d %s %d %d\n' % (c['id'], c['layer'], c['sw'], '-' if c['out_opts'] is None else c['out_opts'], c['cap1'], c['cap2']))
+    rc, out = run_cmd([os.path.join(bindir, 'inittoggle'), cf])
+    obs = {}
+    for line in out.splitlines():
+        p = parse(line)
+        if p: obs[p[0]] = p[1:]
+    bad_lines = [l for l in out.splitlines() if l.strip() and not parse(l)]
+    if rc != 0 or len(obs) != len(cases):
+        broken.append({'kind': 'harness-run', 'name': 'inittoggle', 'log': '\n'.join(bad_lines[:5]) or out[-800:]})
+    exprs = []; meta = []; nontriv = set(); samples = []
+    prop_failed = set()
+    for c in cases:
+        o = obs.get(c['id'])
+        if o is None: continue
+        r1, rr, r2 = o
+        fs = check_property(c, r1, rr, r2, dflt)
+        # a failing input that is not one of the modelled defects is reported as such; the model need not follow it
+        if any('defect' not in f['sig'] for f in fs): prop_failed.add(c['id'])
+        findings.extend(fs)
+        e = coq_case(c, r1, rr, r2)
+        if e is None:
+            if not fs: broken.append({'kind': 'correspondence', 'name': 'inittoggle observation outside the model', 'case': dict(c, observed=o)})
+            continue
+        exprs.append(e); meta.append(c)
+        nontriv.add((c['layer'], c['sw'], c['out_opts'] is None, tuple(on(r1, p) for p in BITS), tuple(on(r2, p) for p in BITS)))
+        if len(samples) < 3 and any(on(r1, p) for p in BITS):
+            samples.append(dict(c, observed={'round1': r1, 'reinit': rr, 'round2': r2}))
+    ok, mk = coq_make(['Model/InitToggles.vo'])
+    if not ok: broken.append({'kind': 'proof', 'name': 'Model/InitToggles build', 'site': coq_error_site(mk)})
+    fails, errs = coq_check_cases('c12tog', HEADER, exprs, shard=150)
+    if errs: broken.append({'kind': 'spec-eval', 'log': errs[0]})
+    for i in fails:
+        c = meta[i]
+        if c['id'] in prop_failed: continue       # already reported as a failing input
+        broken.append({'kind': 'correspondence', 'name': 'Model/InitToggles.v vs %s::init' % {'vfs': 'Vfs', 'pt': 'PassthroughFs', 'ovl': 'OverlayFs'}[c['layer']],
+                       'case': dict(c, observed=obs[c['id']])})
+    return len(obs), len(nontriv), samples
+
+def run_cmd(cmd):
+    import vlib
+    return vlib.run(cmd, timeout=900)
